@@ -39,8 +39,13 @@ type Vm struct {
 	why vmStatus
 	// Current Pending exception type, value and traceback
 	curexc py.ExceptionInfo
-	// Previous exception type, value and traceback
-	exc py.ExceptionInfo
+	// Previous exception type, value and traceback - the exception
+	// being handled.  Points to the record of the Context so that it
+	// is shared with the frames called from this one
+	exc *py.ExceptionInfo
+	// Used for exc when the frame has no Context, and by generator
+	// frames (which would need swap_exc_state)
+	ownExc py.ExceptionInfo
 	// VM access to state / modules
 	context py.Context
 }
